@@ -116,6 +116,30 @@ for arch in MODELS:
             R.fail("C15/db-check/counts", f"C15:db-check:{arch}", f"{arch} --db-check reports (no tp, no lat, no pp, total) = {got}, the model file has {want}")
     except Exception as ex_:
         R.fail("C15/db-check/crash", f"C15:db-check-crash:{arch}", f"{arch}: sanity_check raised {ex_!r}")
+# ---- --db-check reports the numbers of the model FILE also after the model was used for something else in this process
+# (an import into an in-memory copy, written to a stream, must not change what a later db-check of the same arch counts)
+import tempfile
+import osaca.db_interface as dbi
+for arch in [a for a in ("tx2", "zen1") if a in MODELS]:
+    isa_ops = "x_x" if arch == "tx2" else "r_r"
+    with tempfile.NamedTemporaryFile("w", suffix=".dat", delete=False) as f_:
+        f_.write(f"Using frequency 2.50GHz.\nvtdbchk-{isa_ops}-TP: 0.500000 (clock cycles)    [DEBUG - result: 0.0]\nvtdbchk-{isa_ops}-LT:    3.000000 (clock cycles)    [DEBUG - result: 1.0]\n")
+    R.case((arch, "db-check-after-import"), sample=dict(arch=arch, sequence="db-check, import, db-check"))
+    try:
+        counts = []
+        for step in range(2):
+            out = io.StringIO()
+            sanity_check(arch, verbose=False, output_file=out)
+            m = [re.search(r"\((\d+)/(\d+)\) of instruction forms have no " + w, out.getvalue()) for w in ("throughput value", "latency value", "port pressure assignment")]
+            counts.append(tuple(int(x.group(1)) for x in m) + (int(m[0].group(2)),))
+            if step == 0:
+                dbi.import_benchmark_output(arch, "ibench", f_.name, output=io.StringIO())
+        if counts[0] != counts[1]:
+            R.fail("C15/db-check/after-import", f"C15:db-check-after-import:{arch}", f"{arch}: --db-check counted {counts[0]}, after an import into a copy of the model (same process) {counts[1]}; the file did not change")
+    except Exception as ex_:
+        R.fail("C15/db-check/after-import-crash", f"C15:db-check-after-import:{arch}", f"{arch}: db-check / import / db-check in one process raised {ex_!r}")
+    finally:
+        os.unlink(f_.name)
 # ---- costing through the analysis pipeline: one synthesised instruction per entry (quick: entries with alternative port
 # assignments + every 25th entry; thorough: every entry)
 from synth import synth
